@@ -422,6 +422,32 @@ pub fn check_pick(c: &EncCase) -> Verdict {
 }
 
 #[derive(Debug, Clone)]
+pub struct CollisionCase(pub usize);
+impl Case for CollisionCase {
+    fn to_json(&self) -> Value {
+        json!({"size": SYMBOLS[self.0].name})
+    }
+}
+
+fn check_collision(c: &CollisionCase) -> Verdict {
+    let sym = &SYMBOLS[c.0];
+    let base = refimpl::place::render(sym, &vec![0x3c; sym.total()]);
+    let mut n = 0;
+    for (w, h) in [(sym.cols - 1, sym.rows + 256), (sym.cols - 2, sym.rows + 512), (sym.cols - 1, sym.rows + 128), (sym.cols, sym.rows + 256), (sym.cols + 1, sym.rows + 65_280)] {
+        if h > 70_000 / w.max(1) {
+            continue;
+        }
+        let bits: Vec<bool> = (0..w * h).map(|i| base[((i / w) % sym.rows) * sym.cols + (i % w) % sym.cols]).collect();
+        match guard(|| datamatrix::placement::MatrixMap::<bool>::try_from_bits(&bits, w).map(|(_, s)| s)) {
+            Ok(Err(datamatrix::placement::BitmapConversionError::SymbolSize)) => n += 1,
+            Ok(other) => return fail(format!("{} x {} pixels (no symbol has these dimensions; they collide with {} under a packed key): try_from_bits returns {:?}, expected Err(SymbolSize)", w, h, sym.name, other)),
+            Err(p) => return fail(format!("{} x {} pixels: try_from_bits panicked: {}", w, h, p)),
+        }
+    }
+    Verdict::Pass(Pass::new("dimension-collisions", true).count("colliding_shapes", n))
+}
+
+#[derive(Debug, Clone)]
 pub struct RangeSweep {
     pub height: bool,
     pub base_all: bool,
@@ -474,6 +500,13 @@ fn run(ctx: &Arc<Ctx>) {
         }
     }
     ctx.run_enumerated("extreme-bounds", "chain", extremes, Some("width / height filters with both bounds from {0, 1, 7..11, 143..145, usize::MAX-1, usize::MAX} in 8 RangeBounds shapes"), check_chain);
+    // pixel dimensions identify a size uniquely: arrays whose dimensions only collide with a catalogue
+    // size under a packed key (width * 2^k + height) are not symbols
+    let mut coll = Vec::new();
+    for i in 0..48 {
+        coll.push(CollisionCase(i));
+    }
+    ctx.run_enumerated("dimension-collisions", "collision", coll, Some("for each size W x H: arrays of (W-1) x (H+256), (W-2) x (H+512), (W-1) x (H+128), W x (H+256) must be rejected as unknown dimensions"), check_collision);
     ctx.run_generated("chains", "chain", ctx.cases(100_000, 2_000_000), g_chain, check_chain);
     let o = EncGenOpts { long_weight: 1, macro_weight: 1, allow_fnc1: false, ..Default::default() };
     ctx.run_generated("pick", "enc", ctx.cases(100_000, 1_000_000), || g_enc_case(o), check_pick);
@@ -488,6 +521,7 @@ fn replay(_ctx: &Ctx, kind: &str, case: &Value) -> Option<Verdict> {
             Some(check_named(&NamedList(s)))
         }
         "sweep" => Some(check_sweep(&RangeSweep { height: case["sweep"] == "height", base_all: case["base"] == "all", a: case["a"].as_u64()? as usize })),
+        "collision" => Some(check_collision(&CollisionCase(refimpl::table::index_of(case["size"].as_str()?)?))),
         "chain" => Some(check_chain(&ChainCase::from_json(case)?)),
         "enc" => Some(check_pick(&EncCase::from_json(case)?)),
         _ => None,
